@@ -31,14 +31,14 @@ CHECKS.update({
         text="Every named constructor of both types is run for each n, each index and each k in 0..n+2 plus {63,64,65,usize::MAX} (symmetric with a symbolic count mask): the resulting table equals the specified function bit for bit, with no feasible panic.",
         note="Trusted: " + TB + ". n in 0..10 (quick, debug configuration) / 0..12 (+14 for Lut) in both build configurations (thorough)."),
     "C17": dict(cat="proof", ref="3 C17", technique="abstract interpretation of MIR under two build configurations (debug-assertions+overflow-checks on/off): reachability of a return for invalid-argument partitions, equality of abstract results for valid ones",
-        text="For every public method with an index/assignment/block-slice parameter, n in 0..8 (thorough 0..10) and a partition of invalid values (n, n+1, 31/32, 63/64/65, n+70, usize::MAX; wrong slice lengths; mismatched operand sizes for every binary form of Lut), no path returns under either configuration; for valid arguments the abstract results of both configurations are identical and no panic path is feasible.",
+        text="For every public method with an index/assignment/block-slice parameter, n in 0..8 (thorough 0..10) and a partition of invalid values (n, n+1, 31/32, 63/64/65, n+70, usize::MAX; wrong slice lengths; mismatched operand sizes for every binary form of Lut), no path returns under either configuration; for valid arguments the abstract results of both configurations are identical and no panic path is feasible. Effect discipline: no call that is live only in the debug-configuration body receives a mutable reference reaching a parameter or the return place.",
         note="Trusted: " + TB + " for both configurations. StaticLut size mismatches are rejected by the type checker (compile-fail witness in C10 thorough). Canonization, bdd and text methods take no index parameter and are outside this property's scope."),
 })
 
 PP = "path-policy abstract interpretation of the canonization walks on symbolic tables (the data-dependent comparisons are fixed by a policy per abstract path), plus predicates on the evaluated constant sequences"
 CHECKS.update({
     "C04": dict(cat="other", ref="3 C04", technique=PP,
-        text="For each canonization, type and n in the tier's range the walk is run on a symbolic table along the path where no visited table is smaller: it terminates normally, returns the input unchanged, compares every visited table against the best so far (most significant word first), and the visited tables plus the input are exactly the orbit of the input under the group (computed on symbolic tables, hence for every function). Constant flip/swap sequences are closed covering cycles. Minimality follows with the order decided by C08.",
+        text="For each canonization, type and n in the tier's range the walk is run on a symbolic table along the path where no visited table is smaller: it terminates normally, returns the input unchanged, compares every visited table against the best so far (most significant word first), and the visited tables plus the input are exactly the orbit of the input under the group (computed on symbolic tables, hence for every function). Constant flip/swap sequences are closed covering cycles. For n = 7, 8 the step kernels the walks call are shown to be the group generators (adjacent transposition / complement of a variable) on symbolic tables. Minimality follows with the order decided by C08.",
         note="Partial: walks on the hard-coded sequences (p n<=5/6, n n<=6, npn n<=3/4 quick/thorough); for n=7 (8 thorough) only the folded run-time generated sequences are checked (closed covering cycles, same for walk and decoder), not the walk itself. Trusted: " + TB + "; the step from 'every orbit element visited and the strictly smaller kept' to 'minimum returned'."),
     "C05": dict(cat="other", ref="3 C05", technique=PP,
         text="Along the path where no comparison succeeds the returned certificate is the identity; along the path where exactly the k-th comparison succeeds the returned table is the k-th visited table and the returned (perm, mask) maps the symbolic input to it by the statement's formula, perm a permutation and mask without bits above n - for every comparison index k (sampled for the longest walks in the quick tier), every n in range, both types.",
@@ -50,15 +50,15 @@ CHECKS.update({
         text="All 13 aliases tie N to max(1,2^N/64) blocks and are exported; every public method/trait impl has its counterpart; for every common method, n and valid argument partition the abstract results of Lut and StaticLut on the same symbolic table are identical; TryFrom fails exactly on a different variable count and copies blocks verbatim, From copies verbatim, integer conversions map bit m to f(m) with matching widths.",
         note="Trusted: " + TB + "; read-only kernels that are not modelled (formatting, BDD counting) are treated as uninterpreted functions of their abstract arguments. Compile-fail witnesses W2/W3 run in the thorough tier."),
     "C19": dict(cat="other", ref="3 C19", technique="bit-provenance by abstract interpretation: every result bit is traced to a distinct fresh generator bit or the constant 0; who-may-construct rule with a backward slice of the seed operand of every explicitly seeded generator (MIR def-use, statics named by the driver)",
-        text="In random() of both types every table bit below 2^n is a copy of a distinct bit of a fresh next_u64 draw from rand::thread_rng (one draw per word), every bit at or above 2^n is constant 0, the crate has no static state, and the function disappears without the rand feature (thorough). Any explicitly seeded generator (seed_from_u64/from_seed/..::new) built per call or per thread whose seed derives only from constants and write-once statics is a violation (same stream for every call / thread).",
+        text="In random() of both types every table bit below 2^n is a copy of a distinct bit of a fresh next_u64 draw from rand::thread_rng (one draw per word), every bit at or above 2^n is constant 0, the crate has no static state (both build configurations), and the function disappears without the rand feature (thorough). Any explicitly seeded generator (seed_from_u64/from_seed/..::new) built per call or per thread whose seed derives only from constants and write-once statics is a violation (same stream for every call / thread).",
         note="Not decided: statistical quality/independence of rand's generator (trusted dependency)."),
 })
 
 TOK = "token-level abstract interpretation (strings / formatter output as token lists, format-string literals read from the macro call)"
 OPQ = "abstract interpretation of the container code on symbolic containers of fixed small length whose element methods are opaque predicates"
 CHECKS.update({
-    "C09": dict(cat="other", ref="3 C09", technique=TOK + " for the printers; abstract interpretation of the parser on symbolic strings partitioned by length, with a summary of u64::from_str_radix",
-        text="to_hex_string/to_bin_string emit one zero-padded lower-hex/binary token per word, most significant word first, with the specified per-word width; Display/LowerHex/Binary wrap them as Lut<n>(...). from_hex_string: wrong lengths and non-ASCII text only reach Err, no path panics (slicing guarded), on every Ok path each chunk passed an all-hex-digits test before from_str_radix (which accepts '+'), lands in the matching word and fits in 2^n bits.",
+    "C09": dict(cat="other", ref="3 C09", technique=TOK + " for the printers; abstract interpretation of the parser on symbolic strings partitioned by length, with a summary of u64::from_str_radix; window-mode abstract interpretation on byte strings with symbolic bytes (digit decoding modelled bit-exactly), summary evaluated on every byte value",
+        text="to_hex_string/to_bin_string emit one zero-padded lower-hex/binary token per word, most significant word first, with the specified per-word width; Display/LowerHex/Binary wrap them as Lut<n>(...). from_hex_string: wrong lengths and non-ASCII text only reach Err, no path panics (slicing guarded), on every Ok path each chunk passed an all-hex-digits test before from_str_radix (which accepts '+'), lands in the matching word and fits in 2^n bits. Byte windows (both build configurations): with one or two symbolic bytes among '0' characters, the parser's summary evaluated on every byte value gives Ok(the denoted table) exactly for lower-case/decimal digits that fit, Err or the same table for upper-case A-F, Err for everything else, and never panics.",
         note="Not decided: that core::fmt renders the value's digits (trusted std), upper-case acceptance. n in 0..12."),
     "C12": dict(cat="other", ref="3 C12", technique="lane abstraction: conditions/results of the 32-lane cube code are shown to be uniform per-lane predicates/functions and compared with the semantic specification on every non-empty set of lane values; shift constructors by bitflow in 32-bit word mode",
         text="value, is_zero/is_one/is_constant, implies, intersects, all four & forms, from_mask and derived equality are exact for all canonical cubes at once (32 lanes, symbolic), contradictory products are the one canonical zero; minterm is exact for every num_vars in 0..=32 with a symbolic assignment; nth_var/nth_var_inv/one/zero as specified.",
